@@ -135,7 +135,7 @@ func (vc *VC) call(in ssa.Instruction, cc *ssa.CallCommon, h *Heap) []string {
 	}
 	name := calleeName(cc)
 	// at-call assertions of the function under contract
-	if root := vc.root(); vc.parent == nil && root.ct != nil && len(root.ct.AtCall) > 0 {
+	if root := vc.root(); (vc.parent == nil || (root.ct != nil && root.ct.Flags["at-call-inlined"])) && root.ct != nil && (len(root.ct.AtCall) > 0 || len(root.ct.AtCallGhost) > 0) {
 		short := ""
 		if f := cc.StaticCallee(); f != nil {
 			short = f.Name()
@@ -164,8 +164,9 @@ func (vc *VC) call(in ssa.Instruction, cc *ssa.CallCommon, h *Heap) []string {
 				}
 			}
 		}
-		if cls, ok := root.ct.AtCall[short]; ok && short != "" {
-			ev := vc.newEval(vc.fn, *h, vc.heap0, nil)
+		_, hasGhostUpd := root.ct.AtCallGhost[short]
+		if cls, ok := root.ct.AtCall[short]; (ok || hasGhostUpd) && short != "" {
+			ev := vc.newEval(vc.fn, *h, root.heap0, nil)
 			blk := in.Block()
 			vc.atInstr = in
 			ev.resolve = func(n string) (EVal, bool) { return vc.resolveLocalAtBlock(ev, n, blk) }
@@ -199,6 +200,20 @@ func (vc *VC) call(in ssa.Instruction, cc *ssa.CallCommon, h *Heap) []string {
 					vc.flushSkolems(ev, vc.curR)
 					vc.assume(implies(vc.curR, t))
 				}
+			}
+			// accumulator updates: $g += e (e evaluated in the state right before the call)
+			for _, gu := range root.ct.AtCallGhost[short] {
+				ev.skolems, ev.hyps = nil, nil
+				t, err := ev.intExpr(gu.E)
+				if err != nil {
+					vc.fail("at-call %s ghost %s += %s: %v", short, gu.Label, gu.Src, err)
+				}
+				cur, gd, okg := vc.ghostHeap(h, gu.Label)
+				if !okg || gd.Key != "" || gd.Val != "Int" {
+					vc.fail("at-call %s ghost %s: not a declared scalar Int ghost", short, gu.Label)
+				}
+				h.M["G_"+gu.Label] = vc.define("G_"+sanitize(gu.Label), "Int", "(+ "+cur+" "+t+")")
+				root.atCallSeen["ghost:"+short]++
 			}
 			vc.atInstr = nil
 		}
@@ -360,7 +375,7 @@ func (vc *VC) call(in ssa.Instruction, cc *ssa.CallCommon, h *Heap) []string {
 		}
 	}
 	// callees the contract under verification declares opaque: unknown code
-	if root := vc.root(); vc.parent == nil && root.ct != nil && len(root.ct.Opaque) > 0 {
+	if root := vc.root(); root.ct != nil && (vc.parent == nil || root.ct.Flags["at-call-inlined"]) && len(root.ct.Opaque) > 0 {
 		sn := ""
 		if callee != nil {
 			sn = callee.Name()
@@ -775,6 +790,7 @@ func (vc *VC) useContract(in ssa.Instruction, ct *FuncContract, sig *types.Signa
 		h.Alloc = vc.declare(vc.fresh("alloc"), "Int")
 		vc.assume("(>= " + h.Alloc + " " + old + ")")
 	}
+	vc.noteFreshCall(in, ct, sig, pre.Alloc)
 	// results
 	var results [][]string
 	var flat []string
@@ -913,7 +929,7 @@ func (vc *VC) inline(in ssa.Instruction, f *ssa.Function, closure *ssa.MakeClosu
 	child := &VC{P: vc.P, CS: vc.CS, L: vc.L, fn: f, key: funcKey(f), parent: vc, depth: vc.depth + 1,
 		prefix: fmt.Sprintf("i%d_", root.n), vals: map[ssa.Value][]string{},
 		blockOut: map[*ssa.BasicBlock]Heap{}, blockR: map[*ssa.BasicBlock]string{}, blockExit: map[*ssa.BasicBlock]string{},
-		rangeOf: map[ssa.Value]ssa.Value{}, heap0: root.heap0}
+		rangeOf: map[ssa.Value]ssa.Value{}, heap0: root.heap0, callSite: in}
 	for i, p := range f.Params {
 		if i < len(args) {
 			child.vals[p] = vc.val(args[i])
